@@ -29,7 +29,8 @@ abbrev R := Res E
 
 /-- `buf[0:n], buf[n:]` — traps when `n > len(buf)`. -/
 def need (n : Nat) (p : Bytes) : R (Bytes × Bytes) :=
-  if p.length < n then .panic else .ok (p.take n, p.drop n)
+  let h := p.take n
+  if h.length < n then .panic else .ok (h, p.drop n)     -- i.e. `len(p) < n` traps
 
 def dec16 : Bytes → UInt16
   | [a, b] => le16 a b
@@ -54,11 +55,12 @@ def gint64 (p : Bytes) : R (UInt64 × Bytes) := do
 
 /-- `gstr`: `none` is Go's `("", nil)`. -/
 def gstr (p : Bytes) : Option (Bytes × Bytes) :=
-  if p.length < 2 then none
-  else
-    let n := (dec16 (p.take 2)).toNat
-    let r := p.drop 2
-    if n > r.length then none else some (r.take n, r.drop n)
+  match p with
+  | a :: b :: r =>
+    let n := (le16 a b).toNat
+    let s := r.take n
+    if s.length < n then none else some (s, r.drop n)     -- i.e. `n > len(r)`
+  | _ => none                                              -- `len(buf) < 2`
 
 def gqid (p : Bytes) : R (Qid × Bytes) := do
   let (t, p) ← gint8 p
